@@ -1,6 +1,6 @@
 (* Parsing of spec / value terms of the case language and printing of observable values. *)
 From Coq Require Import Strings.String.
-From Iso Require Import Model.Base Model.Sexp Model.Padding Model.Encoding Model.Prefix Model.Bitmap Model.Spec Model.Field Model.Message Model.Json Model.MessageOps.
+From Iso Require Import Model.Base Model.Sexp Model.Padding Model.Encoding Model.Prefix Model.Bitmap Model.Spec Model.Field Model.Message Model.Json Model.MessageOps Model.Marshal.
 
 Definition T (s : string) : bytes := list_byte_of_string s.
 
@@ -276,4 +276,75 @@ Fixpoint parse_jdoc (s : sexp) : option jdoc :=
         end
       else None
   | _ => None
+  end.
+
+(* ---- Go types and values of the Marshal universe ---- *)
+Fixpoint parse_gty (s : sexp) : option gty :=
+  match s with
+  | Atom a =>
+      if bytes_eqb a (T "str") then Some TStr else if bytes_eqb a (T "int") then Some TInt
+      else if bytes_eqb a (T "int64") then Some TInt64 else if bytes_eqb a (T "bytes") then Some TBytes else None
+  | SList [Atom h; a] =>
+      if bytes_eqb h (T "ptr") then option_map TPtr (parse_gty a)
+      else if bytes_eqb h (T "lib") then option_map TLib (parse_kind a)
+      else if bytes_eqb h (T "struct") then
+        match a with
+        | SList l =>
+            option_map TStruct ((fix go (l : list sexp) : option (list (gdecl * gty)) :=
+                                   match l with
+                                   | [] => Some []
+                                   | SList [i; o; n; t] :: r =>
+                                       match as_hex i, as_hex o, as_hex n, parse_gty t, go r with
+                                       | Some i, Some o, Some n, Some t, Some r' => Some ((GDecl i o n, t) :: r')
+                                       | _, _, _, _, _ => None
+                                       end
+                                   | _ => None
+                                   end) l)
+        | _ => None
+        end
+      else None
+  | _ => None
+  end.
+
+Definition state_of_fval (v : fval) : option fstate :=
+  match v with VS b => Some (SString b) | VN z => Some (SNumeric z) | VB b => Some (SBinary b) | VH b => Some (SHex b) | VC _ => None end.
+
+Fixpoint parse_gval (s : sexp) : option gval :=
+  match s with
+  | Atom a =>
+      if bytes_eqb a (T "bnil") then Some (VBytes None) else if bytes_eqb a (T "pnil") then Some (VPtr None)
+      else if bytes_eqb a (T "libnil") then Some (VLib None) else None
+  | SList [Atom h; a] =>
+      if bytes_eqb h (T "s") then option_map VStr (as_hex a)
+      else if bytes_eqb h (T "i") then option_map VInt (as_int a)
+      else if bytes_eqb h (T "l") then option_map VInt64 (as_int a)
+      else if bytes_eqb h (T "b") then option_map (fun b => VBytes (Some b)) (as_hex a)
+      else if bytes_eqb h (T "p") then option_map (fun v => VPtr (Some v)) (parse_gval a)
+      else if bytes_eqb h (T "lib") then match parse_fval a with Some fv => option_map (fun st => VLib (Some st)) (state_of_fval fv) | None => None end
+      else if bytes_eqb h (T "st") then
+        match a with
+        | SList l => option_map VStruct ((fix go (l : list sexp) : option (list gval) :=
+                                            match l with
+                                            | [] => Some []
+                                            | x :: r => match parse_gval x, go r with Some v, Some r' => Some (v :: r') | _, _ => None end
+                                            end) l)
+        | _ => None
+        end
+      else None
+  | _ => None
+  end.
+
+Fixpoint show_gval (v : gval) : bytes :=
+  match v with
+  | VStr s => T "(s " ++ show_hex s ++ T ")"
+  | VInt z => T "(i " ++ show_int z ++ T ")"
+  | VInt64 z => T "(l " ++ show_int z ++ T ")"
+  | VBytes None => T "bnil"
+  | VBytes (Some []) => T "bnil"          (* nil and empty slices are not distinguished *)
+  | VBytes (Some b) => T "(b " ++ show_hex b ++ T ")"
+  | VPtr None => T "pnil"
+  | VPtr (Some p) => T "(p " ++ show_gval p ++ T ")"
+  | VLib None => T "libnil"
+  | VLib (Some st) => T "(lib " ++ show_val st ++ T ")"
+  | VStruct vals => T "(st (" ++ join sp ((fix go (l : list gval) : list bytes := match l with [] => [] | x :: r => show_gval x :: go r end) vals) ++ T "))"
   end.
